@@ -48,6 +48,15 @@ def session_messages(remote_as=65002, local_as=65001, holds=(90,), full=True):
         m['BAD_LEN18'] = wire.frame(wire.KEEPALIVE, length=18)
         m['BAD_LEN4097'] = wire.frame(wire.KEEPALIVE, length=4097)
         m['BAD_TYPE'] = wire.frame(9)
+        # well-framed headers whose length is impossible for their type (RFC 4271 6.1: bad message length)
+        m['OPEN_SHORT'] = wire.frame(wire.OPEN, b'\x04\xfd\xea\x00\x5a\x0a')
+        m['KA_LONG'] = wire.frame(wire.KEEPALIVE, b'\x00')
+        m['UPD_SHORT'] = wire.frame(wire.UPDATE, b'\x00\x00')
+        m['NOTIF_SHORT'] = wire.frame(wire.NOTIFICATION, b'\x06')
+        # OPEN errors beyond version / AS / hold time
+        m['OPEN_BADID'] = wire.open_msg(remote_as, 90, 0, caps)
+        m['OPEN_AUTHPARAM'] = wire.frame(wire.OPEN, wire.open_body(remote_as if remote_as < 65536 else 23456, 90, PEER_ID,
+                                                                  b'\x01\x02\x00\x00'))
     return m
 
 
@@ -60,5 +69,6 @@ def classify(name):
              'RR': ('RR',), 'OPEN_BADVER': ('OPEN_VER',), 'OPEN_BADAS': ('OPEN_AS',),
              'OPEN_H1': ('OPEN_HOLD',), 'OPEN_H2': ('OPEN_HOLD',), 'BAD_MARKER': ('HDR', 1),
              'BAD_LEN18': ('HDR', 2), 'BAD_LEN4097': ('HDR', 2), 'BAD_LEN0': ('HDR', 2),
-             'BAD_TYPE': ('HDR', 3)}
+             'BAD_TYPE': ('HDR', 3), 'OPEN_SHORT': ('HDR', 2), 'KA_LONG': ('HDR', 2), 'UPD_SHORT': ('HDR', 2),
+             'NOTIF_SHORT': ('HDR', 2), 'OPEN_BADID': ('OPEN_ID',), 'OPEN_AUTHPARAM': ('OPEN_OPTPARAM',)}
     return table[name]
